@@ -734,3 +734,76 @@ Section Usable.
     apply B in EG. apply go_preimage_injective in EG; auto.
   Qed.
 End Usable.
+
+(* ================= genesis export / import ================= *)
+
+Lemma NoDup_fold_kv_set : forall (l : list (ckey * cmsg)) acc,
+  NoDup (map fst acc) -> NoDup (map fst (fold_left (fun a e => kv_set ckey_eqb (fst e) (snd e) a) l acc)).
+Proof.
+  induction l as [|e l IH]; intros acc N; cbn [fold_left]; auto.
+  apply IH. apply NoDup_kv_set. exact N.
+Qed.
+
+Lemma In_kv_set : forall k (v : cmsg) l e, In e (kv_set ckey_eqb k v l) -> e = (k, v) \/ In e l.
+Proof.
+  intros k v l e [H|H]; [left; auto|right]. apply filter_In in H. tauto.
+Qed.
+
+(* at most one confirm per key after an import, whatever was exported *)
+Theorem import_nodup : forall st, NoDup (map fst (import_conf st)).
+Proof.
+  intros st. unfold import_conf.
+  assert (G : forall (es : list (ckey * cmsg)) acc, NoDup (map fst acc) ->
+            NoDup (map fst (fold_left (fun acc e =>
+               fold_left (fun acc oa => kv_set ckey_eqb (msg_okey (snd e), oa) (snd e) acc)
+                         (resolve (st_oracles st) (m_bridger (snd e))) acc) es acc))).
+  { induction es as [|e es IH]; intros acc N; cbn [fold_left]; auto. apply IH.
+    generalize (resolve (st_oracles st) (m_bridger (snd e))). intros os. revert acc N.
+    induction os as [|oa os IHo]; intros acc N; cbn [fold_left]; auto.
+    apply IHo. apply NoDup_kv_set. exact N. }
+  apply G. constructor.
+Qed.
+
+(* the bridger written in a stored confirm still resolves to the oracle the confirm is stored under (or to none) *)
+Definition bridgers_resolve_to_key (st : cstate) : Prop :=
+  forall k m oa, In (k, m) (st_conf st) -> In oa (resolve (st_oracles st) (m_bridger m)) -> k = (msg_okey m, oa).
+
+(* then an import invents nothing and moves nothing: every imported confirm is a confirm that was stored, under its key *)
+Theorem import_sound : forall st, bridgers_resolve_to_key st ->
+  forall e, In e (import_conf st) -> In e (st_conf st).
+Proof.
+  intros st B. unfold import_conf.
+  assert (X : forall e, In e (exported st) -> In e (st_conf st)).
+  { intros e H. apply filter_In in H. tauto. }
+  assert (G : forall (es : list (ckey * cmsg)) acc,
+            (forall e, In e es -> In e (st_conf st)) -> (forall e, In e acc -> In e (st_conf st)) ->
+            forall e, In e (fold_left (fun acc e =>
+               fold_left (fun acc oa => kv_set ckey_eqb (msg_okey (snd e), oa) (snd e) acc)
+                         (resolve (st_oracles st) (m_bridger (snd e))) acc) es acc) -> In e (st_conf st)).
+  { induction es as [|x es IH]; intros acc Hes Hacc e H; cbn [fold_left] in H; auto.
+    apply (IH _ (fun e He => Hes e (or_intror He))) in H; auto. clear H e.
+    assert (Hx : In x (st_conf st)) by (apply Hes; left; auto). destruct x as [k m]. cbn [snd] in *.
+    assert (R : forall oa, In oa (resolve (st_oracles st) (m_bridger m)) -> (msg_okey m, oa) = k).
+    { intros oa Ho. symmetry. eapply B; eauto. }
+    revert R Hacc. generalize (resolve (st_oracles st) (m_bridger m)). intros os. revert acc.
+    induction os as [|oa os IHo]; intros acc R Hacc e H; cbn [fold_left] in H; auto.
+    apply IHo in H; auto.
+    - intros oa' Ho. apply R. right. exact Ho.
+    - intros e' He'. apply In_kv_set in He'. destruct He' as [->|He']; auto.
+      rewrite (R oa (or_introl eq_refl)). exact Hx. }
+  apply G; auto. intros e [].
+Qed.
+
+(* without that guard the faithful model misattributes: oracle 11 confirmed through bridger 21, then moved to bridger 23,
+   and oracle 12 took over the released account 21: the import files 11's confirm (external key 31) under oracle 12 *)
+Definition ex_reuse_state : cstate :=
+  {| st_tron := false; st_gid := bytes_of_string "fx-gravity-id";
+     st_ext_index := [(31, 11); (32, 12)];
+     st_oracles := [(11, {| o_bridger := 23; o_external := 31 |}); (12, {| o_bridger := 21; o_external := 32 |})];
+     st_objs := [((KOracleSet, 0, 3), ex_set)];
+     st_conf := [(((KOracleSet, 0, 3), 11), ex_msg)] |}.
+
+Theorem import_misattributes_after_bridger_reuse :
+  import_conf ex_reuse_state = [(((KOracleSet, 0, 3), 12), ex_msg)] /\ m_external ex_msg = 31 /\
+  assoc Z.eqb 12 (st_oracles ex_reuse_state) = Some {| o_bridger := 21; o_external := 32 |}.
+Proof. repeat split; vm_compute; reflexivity. Qed.
